@@ -362,7 +362,7 @@ func (st *State) load(x *Exec, p SV) SV {
 		out = append(out, t)
 	}
 	for k, t := range out {
-		if li.leaves[li.lo+k].sort == RefS && pristineSelect(t) {
+		if isRefLeaf(li.leaves[li.lo+k]) && pristineSelect(t) {
 			// a reference read from the heap as it was at entry denotes an object that existed at entry:
 			// it is distinct from everything allocated since (allocations are constants >= 0x80000000)
 			st.assume(BvCmp("bvult", t, mkBVu(0x80000000, 32)))
